@@ -53,7 +53,7 @@ func init() {
 }
 
 func c14Prefix(budgetIdx int, opts []int) core.Trace {
-	t := core.Trace{{L: "budget", N: len(c14Budgets), V: budgetIdx}, {L: "keypool-base", N: 40, V: 0}}
+	t := core.Trace{{L: "cancel", N: c14CancelModes, V: 0}, {L: "budget", N: len(c14Budgets), V: budgetIdx}, {L: "keypool-base", N: 40, V: 0}}
 	for _, o := range opts {
 		if o == 0 {
 			t = append(t, core.Choice{L: "interfere?", N: 3, V: 0})
@@ -98,16 +98,24 @@ func c14Plans(tier string) []core.Trace {
 	return out
 }
 
+// Caller-side cancellation (random runs only; planned scripts use mode 0): 0-3 the context is
+// never cancelled; 4 it is cancelled while the first commit request is in flight; 5 while the
+// second attempt's workspace is being created; 6 during the first manifest write.
+const c14CancelModes = 7
+
 type c14Script struct {
-	r        *core.Run
-	vcs      *seams.SimVCS
-	attempt  int // GetChangeOps calls seen
-	pos      int // seam calls seen in the current attempt
-	opt      int
-	writers  int
-	random   bool
-	extra    int // extra interferences allowed in random mode
-	manifest string
+	cancelMode int
+	cancel     func()
+	cancelled  bool
+	r          *core.Run
+	vcs        *seams.SimVCS
+	attempt    int // GetChangeOps calls seen
+	pos        int // seam calls seen in the current attempt
+	opt        int
+	writers    int
+	random     bool
+	extra      int // extra interferences allowed in random mode
+	manifest   string
 }
 
 func (s *c14Script) startAttempt() {
@@ -122,6 +130,14 @@ func (s *c14Script) startAttempt() {
 func (s *c14Script) between(site string, ws int) {
 	if site == "GetChangeOps" {
 		s.startAttempt()
+	}
+	if s.cancel != nil && !s.cancelled {
+		if (s.cancelMode == 4 && site == "TryCommit") || (s.cancelMode == 5 && site == "GetChangeOps" && s.attempt == 2) ||
+			(s.cancelMode == 6 && site == "WriteOrCreateFiles" && s.pos >= 5) {
+			s.cancelled = true
+			s.r.Fault("caller-cancels", "attempt %d during %s", s.attempt, site)
+			s.cancel()
+		}
 	}
 	if s.opt > 2*c14CallsPerAttempt && s.pos == s.opt-1-2*c14CallsPerAttempt {
 		s.writerCommit()
@@ -170,6 +186,7 @@ func manifestPaths(raw []byte) (map[string]string, error) {
 }
 
 func runC14(r *core.Run) {
+	cancelMode := r.Intn(c14CancelModes, "cancel")
 	budget := c14Budgets[r.Intn(len(c14Budgets), "budget")]
 	a := worlda.NewAuthority(r, worlda.Config{KM: "memkm", CA: "memca"}, seams.NewPlanNone(r))
 	if err, _ := a.Bootstrap(worlda.BootArgs{}); err != nil {
@@ -182,11 +199,14 @@ func runC14(r *core.Run) {
 	pre := &rpb.VMEndorsementMap{Entries: []*rpb.VMEndorsementMap_Entry{{Digest: bytes.Repeat([]byte{0x99}, 48), Path: "old.binarypb"}}}
 	txt, _ := prototext.Marshal(pre)
 	vcs.ExternalCommit(map[string][]byte{manifest: txt, "/release/out/old.binarypb": []byte("old endorsement")})
-	sc := &c14Script{r: r, vcs: vcs, manifest: manifest}
+	sc := &c14Script{r: r, vcs: vcs, manifest: manifest, cancelMode: cancelMode}
 	vcs.Between, vcs.Decide = sc.between, sc.decide
 	startCalls := len(vcs.Calls)
 	img := images.Pool()[0]
 	q := Req{Image: img, OutDir: "out", Candidate: "c14", SNP: true, LaunchVmsas: 2, ClSpec: 7, Timestamp: a.Now, Retries: budget}
+	if cancelMode >= 4 {
+		q.WithCancel = func(c func()) { sc.cancel = c }
+	}
 	_, err := Endorse(r, a, vcs, q, "")
 	vcs.Between, vcs.Decide = nil, nil
 
